@@ -364,6 +364,15 @@ class Rope:
     def __len__(self):
         return concretize(self.sym_length())
 
+    def __bool__(self):
+        for p in self.parts:
+            if isinstance(p, list):
+                if p:
+                    return True
+            elif builtins.bool(mkbool(p.length != 0)):
+                return True
+        return False
+
     def __add__(self, o):
         parts = list(self.parts)
         for p in Rope.of(o).parts:
